@@ -388,7 +388,7 @@ func lemmaCloseRoundTrip(code StatusCode, reason string) bool {
 //@   ensures  [pos]  inPos(self) == old(inPos(self))+n
 //@   ensures  [data] forall(0, n, func(k int) bool { return p[k] == inByte(self, old(inPos(self))+k) })
 //@   ensures  [err]  err != nil ==> inPos(self) == inEnd(self) && err == inErr(self)
-//@   assigns bytes(p), stream(self)
+//@   assigns bytes(p), instream(self)
 
 //@ iface io.Writer.Write(p []byte) (n int, err error)
 //@   ensures  [calls] outCalls(self) == old(outCalls(self))+1
@@ -396,7 +396,7 @@ func lemmaCloseRoundTrip(code StatusCode, reason string) bool {
 //@   ensures  [len]   outLen(self) == old(outLen(self))+n
 //@   ensures  [data]  forall(0, n, func(k int) bool { return outByte(self, old(outLen(self))+k) == p[k] })
 //@   ensures  [keep]  forall(0, old(outLen(self)), func(k int) bool { return outByte(self, k) == old(outByte(self, k)) })
-//@   assigns stream(self)
+//@   assigns outstream(self)
 
 //@ func io.ReadFull
 //@   requires [stream] VStreamOK(r)
@@ -406,7 +406,7 @@ func lemmaCloseRoundTrip(code StatusCode, reason string) bool {
 //@   ensures  [eof]   err == io.EOF ==> n == 0
 //@   ensures  [n]     0 <= n && n <= len(buf)
 //@   ensures  [pos]   inPos(r) == old(inPos(r))+n
-//@   assigns bytes(buf), stream(r)
+//@   assigns bytes(buf), instream(r)
 
 // ---------------------------------------------------------------------------
 // Header codec (C01).
@@ -419,7 +419,7 @@ func lemmaCloseRoundTrip(code StatusCode, reason string) bool {
 //@   ensures  [len]   result == nil ==> outLen(w) == old(outLen(w))+specHdrLen(h.Length, h.Masked)
 //@   ensures  [bytes] result == nil ==> forall(0, specHdrLen(h.Length, h.Masked), func(k int) bool { return outByte(w, old(outLen(w))+k) == specHdrByte(h, k) })
 //@   ensures  [keep]  forall(0, old(outLen(w)), func(k int) bool { return outByte(w, k) == old(outByte(w, k)) }) && outLen(w) >= old(outLen(w)) && outCalls(w) >= old(outCalls(w))
-//@   assigns stream(w)
+//@   assigns outstream(w)
 
 //@ func ReadHeader
 //@   props C01 C15 C16
@@ -430,7 +430,7 @@ func lemmaCloseRoundTrip(code StatusCode, reason string) bool {
 //@   ensures  [ok]     inEnd(r)-old(inPos(r)) >= VSpecNeed(inByte(r, old(inPos(r))+1)) && !VSpecMSB(r, old(inPos(r))) ==> err == nil && h == VSpecDecode(r, old(inPos(r))) && inPos(r) == old(inPos(r))+VSpecNeed(inByte(r, old(inPos(r))+1))
 //@   ensures  [nomore] inPos(r) <= old(inPos(r))+VSpecNeed(inByte(r, old(inPos(r))+1)) && inPos(r) >= old(inPos(r))
 //@   ensures  [stream] VStreamOK(r)
-//@   assigns stream(r)
+//@   assigns instream(r)
 
 // ---------------------------------------------------------------------------
 // Masking (C02, RFC 6455 §5.3).
@@ -479,7 +479,7 @@ func specMask64(m [4]byte) uint64 {
 //@   ensures  [payload] result == nil ==> forall(0, len(f.Payload), func(k int) bool { return outByte(w, old(outLen(w))+specHdrLen(f.Header.Length, f.Header.Masked)+k) == f.Payload[k] })
 //@   ensures  [keep]  forall(0, old(outLen(w)), func(k int) bool { return outByte(w, k) == old(outByte(w, k)) }) && outLen(w) >= old(outLen(w)) && outCalls(w) >= old(outCalls(w))
 //@   ensures  [atmost] outCalls(w) <= old(outCalls(w))+2 && outCalls(w) >= old(outCalls(w))+1
-//@   assigns stream(w)
+//@   assigns outstream(w)
 
 // ---------------------------------------------------------------------------
 // Frame mask / unmask helpers (C02, C17).
@@ -553,7 +553,7 @@ func VSpecHeaderOK(h Header, s State) bool { return specHeaderOK(h, s) }
 //@   ensures  [payload] err == nil ==> forall(0, len(f.Payload), func(k int) bool { return f.Payload[k] == inByte(r, old(inPos(r))+VSpecNeed(inByte(r, old(inPos(r))+1))+k) })
 //@   ensures  [cut]    inEnd(r)-old(inPos(r)) < 2 ==> err != nil
 //@   ensures  [fresh]  err == nil && len(f.Payload) > 0 ==> fresh(f.Payload)
-//@   assigns stream(r)
+//@   assigns instream(r)
 
 // ---------------------------------------------------------------------------
 // Handshake text helpers (C09, C10, C15): pure parsing functions of http.go / util.go.
